@@ -77,9 +77,21 @@ def delFold (found : List (String × String)) (ts : List (String × String)) : L
 def setFold (found : List (String × String)) (ts : List (String × String)) : List (String × String) :=
   found.foldl (fun acc p => tagSet (tagDel acc (p.1 ++ "alias")) p.1 p.2) ts
 
+/-- the source-specific name tags dropped from the alias field: every tag of `l` (the mangler's tag
+list without its first, base, tag) that has no alias of its own is deleted -/
+def dropFold (l : List String) (found : List (String × String)) (ts : List (String × String)) :
+    List (String × String) :=
+  l.foldl (fun acc tag => if found.any (·.1 == tag) then acc else tagDel acc tag) ts
+
+/-- tags of the alias field before the description is rewritten: alias values set, un-aliased
+source-specific names dropped -/
+def aliasTags (tags : List String) (found : List (String × String)) (ts : List (String × String)) :
+    List (String × String) :=
+  dropFold (tags.drop 1) found (setFold found ts)
+
 /-- the rewritten `dialsdesc` of the alias field -/
-def aliasDesc (found : List (String × String)) (h : Hdr) : String :=
-  (tagGet (setFold found h.tags) "dialsdesc").getD "base dialsdesc unset" ++ " (alias of " ++
+def aliasDesc (tags : List String) (found : List (String × String)) (h : Hdr) : String :=
+  (tagGet (aliasTags tags found h.tags) "dialsdesc").getD "base dialsdesc unset" ++ " (alias of " ++
     " ".intercalate ((found.map fun p => p.1 ++ "=" ++ (tagGet h.tags p.1).getD "").mergeSort (fun a b => a ≤ b)) ++ ")"
 
 theorem aliasMangle_eq (tags : List String) (h : Hdr) (t : Ty) :
@@ -87,7 +99,8 @@ theorem aliasMangle_eq (tags : List String) (h : Hdr) (t : Ty) :
       if (aliasFound tags h).isEmpty then .ok [(h, t)]
       else .ok [({ h with tags := delFold (aliasFound tags h) h.tags }, t),
         ({ h with name := h.name ++ aliasFieldSuffix,
-                  tags := tagSet (setFold (aliasFound tags h) h.tags) "dialsdesc" (aliasDesc (aliasFound tags h) h) }, t)] := rfl
+                  tags := tagSet (aliasTags tags (aliasFound tags h) h.tags) "dialsdesc"
+                    (aliasDesc tags (aliasFound tags h) h) }, t)] := rfl
 
 theorem mem_aliasFound {tags : List String} {h : Hdr} {p : String × String} :
     p ∈ aliasFound tags h ↔ p.1 ∈ tags ∧ tagGet h.tags (p.1 ++ "alias") = some p.2 := by
@@ -188,6 +201,92 @@ theorem tagGet_setFold_tag (found : List (String × String)) (ts : List (String 
       intro e
       exact hnd.1 (List.mem_map.2 ⟨q, hq, e⟩)
     · exact ih _ hm hnd.2 (fun q hq => hk q (List.mem_cons_of_mem _ hq))
+
+/-- a key that is no found alias-tag name is untouched in the primary field -/
+theorem tagGet_delFold_other (found : List (String × String)) (ts : List (String × String)) (k : String)
+    (hk : ∀ p ∈ found, p.1 ++ "alias" ≠ k) : tagGet (delFold found ts) k = tagGet ts k := by
+  induction found generalizing ts with
+  | nil => rfl
+  | cons p f ih =>
+    rw [delFold_cons, ih _ (fun q hq => hk q (List.mem_cons_of_mem _ hq))]
+    exact tagGet_tagDel_ne _ _ _ (Ne.symm (hk p List.mem_cons_self))
+
+/-! ### the alias field's dropped source-specific names -/
+
+theorem dropFold_nil (found : List (String × String)) (ts : List (String × String)) :
+    dropFold [] found ts = ts := rfl
+
+theorem dropFold_cons (tag : String) (l : List String) (found : List (String × String))
+    (ts : List (String × String)) :
+    dropFold (tag :: l) found ts =
+      dropFold l found (if found.any (·.1 == tag) then ts else tagDel ts tag) := rfl
+
+/-- deleting a tag never makes an absent key present -/
+theorem tagGet_tagDel_none (ts : List (String × String)) (k k' : String) (h : tagGet ts k = none) :
+    tagGet (tagDel ts k') k = none := by
+  by_cases e : k = k'
+  · subst e; exact tagGet_tagDel_self _ _
+  · rw [tagGet_tagDel_ne _ _ _ e]; exact h
+
+/-- an absent key stays absent -/
+theorem tagGet_dropFold_none (l : List String) (found : List (String × String)) (ts : List (String × String))
+    (k : String) (h : tagGet ts k = none) : tagGet (dropFold l found ts) k = none := by
+  induction l generalizing ts with
+  | nil => exact h
+  | cons tag l ih =>
+    rw [dropFold_cons]
+    apply ih
+    split
+    · exact h
+    · exact tagGet_tagDel_none _ _ _ h
+
+/-- a key that is not a dropped name (not in the list, or with an alias of its own) is untouched -/
+theorem tagGet_dropFold_keep (l : List String) (found : List (String × String)) (ts : List (String × String))
+    (k : String) (hk : k ∈ l → found.any (·.1 == k) = true) :
+    tagGet (dropFold l found ts) k = tagGet ts k := by
+  induction l generalizing ts with
+  | nil => rfl
+  | cons tag l ih =>
+    rw [dropFold_cons, ih _ (fun hm => hk (List.mem_cons_of_mem _ hm))]
+    split
+    · rfl
+    · next hany =>
+      apply tagGet_tagDel_ne
+      intro e
+      subst e
+      exact hany (hk List.mem_cons_self)
+
+/-- a listed name without an alias of its own is dropped -/
+theorem tagGet_dropFold_drop (l : List String) (found : List (String × String)) (ts : List (String × String))
+    (k : String) (hm : k ∈ l) (hk : found.any (·.1 == k) = false) :
+    tagGet (dropFold l found ts) k = none := by
+  induction l generalizing ts with
+  | nil => cases hm
+  | cons tag l ih =>
+    rw [dropFold_cons]
+    rcases List.mem_cons.1 hm with e | hm
+    · subst e
+      apply tagGet_dropFold_none
+      rw [hk]
+      exact tagGet_tagDel_self _ _
+    · exact ih _ hm
+
+/-- an aliased tag is among the found pairs' names -/
+theorem aliasFound_any_of_mem {found : List (String × String)} {tag a : String} (h : (tag, a) ∈ found) :
+    found.any (·.1 == tag) = true :=
+  List.any_eq_true.2 ⟨(tag, a), h, by simp⟩
+
+/-- a tag without an alias of its own is not among the found pairs' names -/
+theorem aliasFound_any_false (tags : List String) (h : Hdr) (tag : String)
+    (hna : tagGet h.tags (tag ++ "alias") = none) : (aliasFound tags h).any (·.1 == tag) = false := by
+  cases hb : (aliasFound tags h).any (·.1 == tag) with
+  | false => rfl
+  | true =>
+    obtain ⟨p, hp, e⟩ := List.any_eq_true.1 hb
+    have e' : p.1 = tag := by simpa using e
+    have := (mem_aliasFound.1 hp).2
+    rw [e', hna] at this
+    cases this
 
 /-! ### string facts -/
 
